@@ -163,15 +163,16 @@ func ext۰reflect۰SliceOf(fr *frame, args []value) value {
 
 func ext۰reflect۰TypeOf(fr *frame, args []value) value {
 	// Signature: func (t reflect.rtype) Type
-	if args[0].(iface).t == nil {
+	a0 := fr.i.forceIface(fr, args[0])
+	if a0.t == nil {
 		return iface{}
 	}
-	return makeReflectType(rtype{args[0].(iface).t})
+	return makeReflectType(rtype{a0.t})
 }
 
 func ext۰reflect۰ValueOf(fr *frame, args []value) value {
 	// Signature: func (interface{}) reflect.Value
-	itf := args[0].(iface)
+	itf := fr.i.forceIface(fr, args[0])
 	return makeReflectValue(itf.t, itf.v)
 }
 
@@ -271,6 +272,9 @@ func ext۰reflect۰Value۰Call(fr *frame, args []value) value {
 		xv := rV2V(x)
 		if types.IsInterface(xt) {
 			// interface-kinded Value (e.g. from reflect.Zero of an interface type)
+			if lz, isLz := xv.(*lazyVal); isLz {
+				xv = fr.i.forceIface(fr, lz)
+			}
 			inner, _ := xv.(iface)
 			if types.IsInterface(pt) {
 				if inner.t == nil {
@@ -642,7 +646,10 @@ func ext۰reflect۰valueInterface(fr *frame, args []value) value {
 	}
 	if types.IsInterface(t) {
 		// the payload of an interface-typed Value is the interface value itself
-		if inner, ok := rV2V(v).(iface); ok {
+		switch inner := rV2V(v).(type) {
+		case iface:
+			return inner
+		case *lazyVal:
 			return inner
 		}
 		return iface{}
